@@ -21,7 +21,7 @@ Record obs := mk_obs {
 Record run := mk_run { r_seed : N; r_words : list N; r_obs : list obs }.
 
 Inductive case :=
-| CReg (r : registry) (runs : list run)
+| CReg (r : registry) (small : bool) (runs : list run)   (* [small]: the tree unfolding from the observed ids (all variants) is small enough for the path-based [safeb] *)
 | CProbe (seed : N) (ws : list N) (ops : list rng_op) (res : list (list Z)).
 
 (** ** correspondence *)
@@ -37,12 +37,12 @@ Definition outcome_matches (m : xres value) (o : oval) : bool :=
 
 Definition for_obs (f : registry -> run -> obs -> bool) (c : case) : bool :=
   match c with
-  | CReg r runs => forallb (fun ru => forallb (f r ru) (r_obs ru)) runs
+  | CReg r _ runs => forallb (fun ru => forallb (f r ru) (r_obs ru)) runs
   | CProbe _ _ _ _ => true
   end.
 Definition ex_obs (f : registry -> run -> obs -> bool) (c : case) : bool :=
   match c with
-  | CReg r runs => existsb (fun ru => existsb (f r ru) (r_obs ru)) runs
+  | CReg r _ runs => existsb (fun ru => existsb (f r ru) (r_obs ru)) runs
   | CProbe _ _ _ _ => false
   end.
 
@@ -54,7 +54,7 @@ Definition corr_value : case -> bool :=
     generator and consumes exactly the words the real generator consumed *)
 Definition corr_rng (c : case) : bool :=
   match c with
-  | CReg _ _ => true
+  | CReg _ _ _ => true
   | CProbe _ ws ops res =>
       match run_script ops ws with
       | Drawn out [] => list_eqb (list_eqb Z.eqb) out res
@@ -113,10 +113,14 @@ Definition dfs_ok (ce cm : bool) (r : registry) (id : N) : bool :=
 Definition safe_dfs (r : registry) (id : N) : bool := dfs_ok true true r id.
 
 (** the path-based definition used in the theorem agrees with the linear one
-    (evaluated on registries of at most 64 entries; the path-based one unfolds DAGs) *)
-Definition corr_safe : case -> bool :=
-  for_obs (fun r _ o =>
-    if (N.of_nat (List.length r) <=? 64) then Bool.eqb (safeb r (o_id o)) (safe_dfs r (o_id o)) else true).
+    (evaluated where the harness measured a small tree unfolding; the path-based one unfolds DAGs) *)
+Definition corr_safe (c : case) : bool :=
+  match c with
+  | CReg _ true _ => for_obs (fun r _ o => Bool.eqb (safeb r (o_id o)) (safe_dfs r (o_id o))) c
+  | _ => true
+  end.
+Definition hyp_safe_compared (c : case) : bool :=
+  match c with CReg _ true _ => true | _ => false end.
 
 (** ** the input class of the round-trip clause (DESIGN 3.1, clauses 7 and 8, on
     the types reachable from the id): compact wraps an unsigned integer or a
@@ -236,7 +240,7 @@ Definition known_F10 (c : case) : bool :=
 
 (** ** hypothesis hit counters *)
 Definition hyp_closed (c : case) : bool :=
-  match c with CReg r _ => closed_reg r && ids_consistent r | _ => false end.
+  match c with CReg r _ _ => closed_reg r && ids_consistent r | _ => false end.
 Definition hyp_cyclic : case -> bool :=
   ex_obs (fun r _ o => (o_id o <? N.of_nat (List.length r)) && closed_reg r && negb (dfs_ok false false r (o_id o))).
 Definition hyp_empty_enum : case -> bool :=
